@@ -35,6 +35,7 @@ structure DefInfo where
   slotcount : Nat
   envLen : Nat           -- `environments_length`
   bytecode : List Nat
+  envs : List Int := []  -- `def->environments[0 .. environments_length)` as read (ghost: no accept / reject decision reads it)
   deriving Repr, Inhabited
 
 /-- everything `janet_verify` looks at -/
@@ -57,6 +58,7 @@ structure St where
   nenvs : Nat := 0                        -- janet_v_count(st->lookup_envs)
   defs : Array DefInfo := #[]             -- st->lookup_defs (+ lookup_defs_done)
   funcs : Array (Option Nat) := #[]       -- func->def (none = NULL, function under construction)
+  fnEnvs : Array Nat := #[]               -- number of `envs[]` slots the function was allocated with (`len` of LB_FUNCTION; ghost)
   fibers : Array (Option Nat) := #[]      -- fiber->child
   deriving Repr, Inhabited
 
@@ -233,6 +235,8 @@ structure Cfg where
   refChecked : Bool                      -- LB_REFERENCE: `len >= janet_v_count(st->lookup)` is tested before `st->lookup[len]`
   envRefChecked : Bool                   -- LB_FUNCENV_REF: `index < 0 || index >= janet_v_count(st->lookup_envs)` before `st->lookup_envs[index]`
   defRefChecked : Bool                   -- LB_FUNCDEF_REF: the same for `st->lookup_defs[index]` / `lookup_defs_done[index]`
+  fnEnvCountChecked : Bool := true       -- LB_FUNCTION: `def->environments_length != len` panics (Gen/ImageChecks `fnEnvCount`)
+  defEnvIndexChecked : Bool := true      -- unmarshal_one_def: `environments[i] < -1` panics (Gen/ImageChecks `defEnvIndex`)
 
 def Cfg.refsChecked (C : Cfg) : Bool := C.refChecked && C.envRefChecked && C.defRefChecked
 
@@ -385,14 +389,14 @@ def defBody (P : Fns) (d : Nat) : M Nat :=
     loopN nconsts (P.one (d + C.inc.defConst) >>= fun _ => pure ()) >>= fun _ =>
     collectN nsym (symEntry C b P d) >>= fun symmap =>
     collectN bclen (u32 C b) >>= fun bytecode =>
-    loopN nenvs (readint C b >>= fun inh => expect (decide (-1 ≤ inh)) .envIdx) >>= fun _ =>
+    collectN nenvs (readint C b >>= fun inh => expect (!C.defEnvIndexChecked || decide (-1 ≤ inh)) .envIdx >>= fun _ => pure inh) >>= fun envs =>
     loopN ndefs (P.def_ (d + C.inc.defSub) >>= fun _ => pure ()) >>= fun _ =>
     (if bit (toU32 flagsI) 8388608 then loopN bclen (readint C b >>= fun _ => readint C b >>= fun _ => pure ()) else pure ()) >>= fun _ =>   -- HASSOURCEMAP
     (if bit (toU32 flagsI) 33554432 then loopN ((slotcount + 31) / 32) (u32 C b >>= fun _ => pure ()) else pure ()) >>= fun _ =>             -- HASCLOBITSET
     expect (C.verify { flags := toU32 flagsI, slotcount := slotcount, arity := arity, minArity := minA, maxArity := maxA,
                        nconsts := nconsts, ndefs := ndefs, nenvs := nenvs, bytecode := bytecode, symmap := symmap }) .verify >>= fun _ =>
     modSt (fun s => { s with defs := s.defs.setIfInBounds s0.defs.size
-                                { done := true, slotcount := slotcount, envLen := nenvs, bytecode := bytecode } }) >>= fun _ =>
+                                { done := true, slotcount := slotcount, envLen := nenvs, bytecode := bytecode, envs := envs } }) >>= fun _ =>
     pure s0.defs.size
 
 /-- follow `c->child` from `start` for at most `k` steps; true when `target` is met -/
@@ -467,11 +471,11 @@ def functionBody (P : Fns) (d : Nat) : M V :=
   readnat C b >>= fun len =>
   expect (decide (len ≤ 255)) .fnEnvs >>= fun _ =>
   getSt >>= fun s0 =>
-  modSt (fun s => { s with funcs := s.funcs.push none, lookup := s.lookup.push (.func s.funcs.size) }) >>= fun _ =>
+  modSt (fun s => { s with funcs := s.funcs.push none, fnEnvs := s.fnEnvs.push len, lookup := s.lookup.push (.func s.funcs.size) }) >>= fun _ =>
   P.def_ (d + C.inc.oneDef) >>= fun di =>
   getSt >>= fun s =>
   expect (decide (0 < (s.defs[di]?.getD default).bytecode.length)) .fnIncomplete >>= fun _ =>
-  expect (decide ((s.defs[di]?.getD default).envLen = len)) .fnEnvCount >>= fun _ =>
+  expect (!C.fnEnvCountChecked || decide ((s.defs[di]?.getD default).envLen = len)) .fnEnvCount >>= fun _ =>
   modSt (fun s => { s with funcs := s.funcs.setIfInBounds s0.funcs.size (some di) }) >>= fun _ =>
   loopN len (P.env (d + C.inc.oneEnv)) >>= fun _ =>
   pure (.func s0.funcs.size)
